@@ -12,6 +12,7 @@ wire format
           {"op":"validate","cfg":value}
           {"op":"argv","opts":[...],"cfg":value}
           {"op":"table"}
+          {"op":"branch","keys":[[level, key],...]}                                 `_is_branch_key` of the parser at `level`
           {"op":"decl","style":S,"key":k,"fields":[{"name","ty","def"?}, ...]}     C07: action table of one style
           {"op":"parse7", ...}                                                      C07: see `parse7`
 -/
@@ -205,6 +206,12 @@ def step (st : St) (j : Json) : Json × St :=
     let acts := flatten "" "" st.fields
     (.arr (acts.map fun a => Json.arr #[.str (a.level ++ a.dest), .arr (a.optKeys.map Json.str).toArray,
         .str (match a.kind with | .arg => "arg" | .cls => "arg" | .whole => "whole" | .sub => "sub"), .bool a.required]).toArray, st)
+  | "branch" =>
+    let acts := flatten "" "" st.fields
+    let keys := (jArr j "keys").filterMap (fun (x : Json) => match x with
+      | .arr #[.str l, .str k] => some (l, k)
+      | _ => none)
+    (.arr (keys.map fun lk => Json.bool (isBranchKey acts lk.1 lk.2)).toArray, st)
   | "argv" =>
     let opts := (jArr j "opts").filterMap (fun (x : Json) => match x with
       | .arr #[.str l, .str k] => some (l, k)
